@@ -44,6 +44,7 @@ ASSUMPTIONS = [
     "quantified variable lists are duplicate-free",
 ]
 
+COST_LIMIT = 30000       # node evaluations of the exact evaluator per chk_equiv request
 PROCS = ["nnf", "aig", "conj", "disj", "shannon", "selfsub", "times", "prenex", "propagate"]
 FRESH_PREFIX = "%FRESH%"
 
@@ -110,6 +111,43 @@ def build_fnode(env, nodes):
 
 
 # ------------------------------------------------------------------------------------------- generation
+def dom_size(t):
+    """size of the quantification domain the Sem driver uses for sort t (gen.InterpGen.domains / Wire.allVals)"""
+    if t.is_bool_type():
+        return 2
+    if t.is_bv_type():
+        return 1 << t.width
+    if t.is_int_type() or t.is_real_type():
+        return 4
+    return 2
+
+
+def dom_product(vs):
+    n = 1
+    for v in vs:
+        n *= dom_size(v.symbol_type())
+    return n
+
+
+def eval_cost(f):
+    """number of node evaluations of the (tree-walking, exact) reference evaluator on f"""
+    memo = {}
+    stack = [(f, False)]
+    while stack:
+        n, done = stack.pop()
+        if n.node_id() in memo:
+            continue
+        if not done:
+            stack.append((n, True))
+            stack.extend((c, False) for c in n.args() if c.node_id() not in memo)
+        else:
+            c = 1 + sum(memo[a.node_id()] for a in n.args())
+            if n.is_quantifier():
+                c = 1 + dom_product(n.quantifier_vars()) * memo[n.arg(0).node_id()]
+            memo[n.node_id()] = min(c, 10 ** 12)
+    return memo[f.node_id()]
+
+
 class Gen10:
     def __init__(self, rng, env):
         self.rng = rng
@@ -133,7 +171,7 @@ class Gen10:
         self.f = [f for f in u.funs if f.symbol_name() == "f"][0]
         self.bool_binders = [self.qb, self.qc, self.p, self.q]
         self.all_binders = [self.qb, self.qc, self.p, self.qi, self.x, self.qv, self.bv2[0]]
-        self.pool = []
+        self.pools = {None: [], "bool": [], "all": []}
 
     def pick(self, l):
         return l[self.rng.randrange(len(l))]
@@ -198,19 +236,21 @@ class Gen10:
             return self.bool_leaf(bound)
 
     # ---- Boolean structure
-    def boolf(self, depth, bound=(), quant="all", qprob=0.18):
-        """quant: None (no quantifier), "bool" (Boolean binders), "all" (Bool, BV2, Int binders)"""
+    def boolf(self, depth, bound=(), quant="all", qprob=0.18, budget=64):
+        """quant: None (no quantifier), "bool" (Boolean binders), "all" (Bool, BV2, Int binders);
+        budget: bound on the product of the domain sizes of nested binders (cost of the exact evaluation)"""
         m, r = self.m, self.rng
         bound = list(bound)
         if depth <= 0 or r.random() < 0.1:
             return self.atom(bound)
-        if self.pool and r.random() < 0.08 and quant is not None:
-            return self.pick(self.pool)
+        pool = self.pools[quant]
+        if pool and r.random() < 0.08 and quant is not None and not bound:
+            return self.pick(pool)
         ks = ["not", "not", "and", "and", "or", "or", "implies", "iff", "iff", "ite", "ite"]
-        if quant is not None and r.random() < qprob * 3:
+        if quant is not None and budget >= 2 and r.random() < qprob * 3:
             ks += ["quant"] * 4
         k = self.pick(ks)
-        sub = lambda: self.boolf(depth - 1, bound, quant, qprob)
+        sub = lambda: self.boolf(depth - 1, bound, quant, qprob, budget)
         if k == "not":
             f = m.Not(sub())
         elif k in ("and", "or"):
@@ -230,7 +270,11 @@ class Gen10:
         else:
             binders = self.bool_binders if quant == "bool" else self.all_binders
             vs = r.sample(binders, r.choice([1, 1, 1, 2, 2, 3]))
-            body = self.boolf(depth - 1, bound + vs, quant, qprob)
+            while len(vs) > 1 and dom_product(vs) > budget:
+                vs.pop()
+            if dom_product(vs) > budget:
+                vs = [self.qb]
+            body = self.boolf(depth - 1, bound + vs, quant, qprob, budget // dom_product(vs))
             if r.random() < 0.6:
                 v = vs[0]
                 t = v.symbol_type()
@@ -238,8 +282,8 @@ class Gen10:
                                                   else m.BVULT(v, self.bv_term(bound + vs)))
                 body = self.pick([m.And, m.Or, m.Iff, m.Implies])(body, occ)
             f = (m.ForAll if r.random() < 0.5 else m.Exists)(vs, body)
-        if quant is not None and len(self.pool) < 30:
-            self.pool.append(f)
+        if quant is not None and len(pool) < 30 and not bound:
+            pool.append(f)
         return f
 
     # ---- arithmetic for TimesDistributor
@@ -322,6 +366,9 @@ class Gen10:
         if r.random() < 0.15:
             # a binder over a non-defined symbol
             conj.append(m.ForAll([self.qc], m.Or(self.qc, m.LE(self.x, self.y))))
+        if r.random() < 0.06:
+            # a binder over a symbol that may be the representative of a class (capture, finding F51)
+            conj.append(m.Exists([self.x], m.LT(self.x, self.y)))
         r.shuffle(conj)
         if len(conj) >= 3 and r.random() < 0.4:
             k = r.randrange(1, len(conj) - 1)
@@ -481,6 +528,25 @@ def interps_for(ig, f, n, rng):
     return [ig.for_formula(f) for _ in range(n)]
 
 
+def satisfy_definitions(f, it, rng):
+    """make the interpretation satisfy (most of) the top-level definitions of f, so that the interesting
+    interpretations of a propagate_toplevel input are not vanishingly rare"""
+    import pysmt.rewritings as rw
+    syms, fns, doms = it
+    val = {n: v for n, t, v in syms}
+    for _ in range(3):
+        for c in rw.conjunctive_partition(f):
+            if c.is_equals() and rng.random() < 0.9:
+                l, r_ = c.args()
+                if l.is_symbol() and r_.is_symbol() and l.symbol_name() in val and r_.symbol_name() in val:
+                    val[l.symbol_name()] = val[r_.symbol_name()]
+                elif l.is_symbol() and r_.is_constant() and l.symbol_name() in val:
+                    val[l.symbol_name()] = semantic.fnode_to_val(r_)
+                elif r_.is_symbol() and l.is_constant() and r_.symbol_name() in val:
+                    val[r_.symbol_name()] = semantic.fnode_to_val(l)
+    return ([(n, t, val[n]) for n, t, v in syms], fns, doms)
+
+
 def generate(ctx, env, n_each):
     """-> list of (proc, FNode)"""
     g = Gen10(ctx.rng, env)
@@ -550,12 +616,38 @@ def atom_kinds(f):
     return kinds
 
 
+def capture_shape(f):
+    """a binder of f binds a symbol of a top-level definition while another symbol of a top-level definition is free
+    in its body (substituting the one for the other is captured)"""
+    import pysmt.rewritings as rw
+    defs = set()
+    for c in rw.conjunctive_partition(f):
+        if c.is_equals():
+            l, r_ = c.args()
+            if (l.is_symbol() or l.is_constant()) and (r_.is_symbol() or r_.is_constant()):
+                defs.update(x for x in (l, r_) if x.is_symbol())
+    seen, stack = set(), [f]
+    while stack:
+        n = stack.pop()
+        if n.node_id() in seen:
+            continue
+        seen.add(n.node_id())
+        if n.is_quantifier():
+            qv = set(n.quantifier_vars())
+            if (qv & defs) and ((n.arg(0).get_free_variables() - qv) & defs):
+                return True
+        stack.extend(n.args())
+    return False
+
+
 def sig_for(proc, oracle, f, extra=None):
     kinds = atom_kinds(f)
     sig = {"proc": proc, "oracle": oracle,
            "select": "yes" if "arraySelect" in kinds else "no",
            "quantifier": "yes" if ("forall" in kinds or "exists" in kinds) else "no",
            "strConst": "yes" if "strConst" in kinds else "no"}
+    if proc.startswith("propagate"):
+        sig["capture"] = "yes" if capture_shape(f) else "no"
     if extra:
         sig.update(extra)
     return sig
@@ -565,6 +657,8 @@ def process(ctx, env, cases, record=True):
     """run K and S on the cases; returns number of S failures"""
     ig = gen.InterpGen(ctx.rng, gen.Universe(env, widths=(1, 2, 3)))
     mgr = env.formula_manager
+    import time as _t0
+    t_start = _t0.time()
     model_lines, sem_lines = [], []
     work = []
     n_int = 5 if ctx.tier == "quick" else 8
@@ -600,26 +694,40 @@ def process(ctx, env, cases, record=True):
                 if r2[0] == "ok":
                     outs.append(("propagate_simp", r2[1]))
         its = interps_for(ig, f, n_int, ctx.rng)
+        if proc == "propagate":
+            its = [satisfy_definitions(f, it, ctx.rng) if i % 4 else it for i, it in enumerate(its + its)]
         item["sem"] = []
         for label, g_ in outs:
+            cost = eval_cost(f) + eval_cost(g_)
+            if cost > COST_LIMIT:
+                ctx.count("s_equiv_skipped_cost_" + label)
+                continue
+            its_ = its[:max(1, min(len(its), COST_LIMIT // cost))]
             try:
-                line = semantic.chk_equiv_line(f, g_, its)
+                line = semantic.chk_equiv_line(f, g_, its_)
             except wire.OutOfFragment:
                 ctx.count("out_of_fragment_result")
                 continue
             item["sem"].append((label, len(sem_lines), g_))
             sem_lines.append(line)
         work.append(item)
+    import time as _t
+    t0 = _t.time()
+    ctx.extra["t_impl_and_encode"] = round(ctx.extra.get("t_impl_and_encode", 0) + t0 - t_start, 1)
     model_ans = None
     try:
         model_ans = ctx.lean_run_sharded("C10", model_lines)
     except common.LeanError as e:
         ctx.report_l("driver C10 does not run", str(e))
+    t1 = _t.time()
+    ctx.extra["t_driver_C10"] = round(ctx.extra.get("t_driver_C10", 0) + t1 - t0, 1)
     sem_ans = None
     try:
         sem_ans = ctx.lean_run_sharded("Sem", sem_lines)
     except common.LeanError as e:
         ctx.report_l("driver Sem does not run", str(e))
+    ctx.extra["t_driver_Sem"] = round(ctx.extra.get("t_driver_Sem", 0) + _t.time() - t1, 1)
+    ctx.extra["sem_request_bytes"] = ctx.extra.get("sem_request_bytes", 0) + sum(len(l) for l in sem_lines)
     nfail = 0
     for item in work:
         proc, f, res = item["proc"], item["f"], item["res"]
@@ -682,6 +790,9 @@ def process(ctx, env, cases, record=True):
         if a.startswith("bad-op") or a == "bad-fresh":
             ctx.infra("C10 driver rejected a request: %s :: %s" % (a[:80], rd))
             continue
+        if proc == "selfsub" and not fragment_ok(proc, f):
+            ctx.count("k_skipped_selfsub_nonbool_binder")
+            continue
         ctx.count("k_compared")
         krep = dict(rep, lean=a[:3000])
         if res[0] == "err":
@@ -730,6 +841,8 @@ def probes(env):
     out.append(("prenex", m.Ite(m.Exists([x], m.LT(x, y)), m.ForAll([x], m.LE(x, y)), a)))
     out.append(("propagate", m.And(m.Equals(x, y), m.Equals(y, m.Int(5)), m.LE(x, m.Int(5)))))
     out.append(("propagate", m.And(m.Equals(x, m.Int(1)), m.Equals(x, m.Int(2)))))
+    out.append(("propagate", m.And(m.Equals(y, x), m.ForAll([x], m.LE(x, y)))))          # capture (F51)
+    out.append(("propagate", m.Equals(m.String("a"), m.String("b"))))                     # F50
     out.append(("propagate", m.And(m.Equals(s, m.String("a")), m.Equals(s, t), m.StrContains(t, s))))
     out.append(("times", m.Times(m.Plus(x, m.Int(1)), m.Minus(y, m.Int(1)), x)))
     qb = m.Symbol("qb")
@@ -742,7 +855,7 @@ def probes(env):
 def run(ctx):
     warnings.simplefilter("ignore")
     env = fresh_env()
-    n_each = 130 if ctx.tier == "quick" else 1500
+    n_each = 110 if ctx.tier == "quick" else 1500
     cases = probes(env) + generate(ctx, env, n_each)
     ctx.extra["generated_cases"] = len(cases)
     chunk = 4000
